@@ -266,6 +266,11 @@ def run_configs(ctx):
                                                     'grouping': [1, 1, 2, 2]}, [['a', 'b', 'c', 'd'], ['d', 'c', 'b', 'a']]
         yield 'SumGrader', M.SumGrader, {'answers': {'lower': '1', 'upper': '3', 'summand': 'n', 'summation_variable': 'n'},
                                          'input_positions': {'summand': 1}}, ['n', 'n^2']
+        yield 'SumGrader(deleted constants)', M.SumGrader, {'answers': {'lower': '1', 'upper': '3', 'summand': 'n', 'summation_variable': 'n'},
+                                                            'user_constants': {'pi': None, 'infty': None, 'c': 2.0}}, [['1', '3', 'n', 'n'], ['1', '3', 'pi', 'n']]
+        yield 'MatrixGrader(deleted constants)', M.MatrixGrader, {'answers': 'x', 'variables': ['x'], 'user_constants': {'e': None, 'i': None}}, ['x', 'e']
+        yield 'FormulaGrader(numbered)', M.FormulaGrader, {'answers': 'a_{1}+x', 'variables': ['x'], 'numbered_vars': ['a'], 'sample_from': {'x': [1, 2]}},\
+            ['x+a_{1}', 'a_{2}+x', 'a_{3}']
         yield 'LinearComparer', M.LinearComparer, {'equals': 1.0, 'proportional': 0.3}, None
         yield 'RealInterval', M.RealInterval, {'start': 3, 'stop': 1}, None
         yield 'RealInterval(list)', M.RealInterval, [3, 1], None
@@ -292,11 +297,16 @@ def run_configs(ctx):
                 ctx.violation('C11:config:reused_dict_gives_unequal_objects:' + name, 'Cls(cfg) != Cls(cfg)', wit)
             if inputs:
                 cb = state.fp(b.config)
+                ca = state.fp({k: v for k, v in a.config.items() if k not in ('answers', 'expect')})
                 for inp in inputs * 2:
                     lib.call(ctx, a, None, list(inp) if isinstance(inp, list) else inp)
                     ctx.ev()
                 if state.fp(cfg) != before:
                     ctx.violation('C11:config:author_object_modified_by_grading:' + name, 'altered by grader calls', wit)
+                if state.fp({k: v for k, v in a.config.items() if k not in ('answers', 'expect')}) != ca:
+                    changed = [k for k in a.config if k not in ('answers', 'expect') and state.fp(a.config[k]) != state.fp(cls(cfg).config[k])]
+                    ctx.violation('C11:config:own_options_modified_by_grading:' + name,
+                                  'options %r of the grader changed while it graded' % (changed,), wit)
                 if state.fp(b.config) != cb:
                     ctx.violation('C11:config:sibling_instance_modified:' + name,
                                   'calls on one grader changed another grader built from the same dictionary', wit)
@@ -317,8 +327,18 @@ def run_shared(ctx):
     import mitxgraders as M
     rng = ctx.rng
     for i in range(ctx.n(480, 8000)):
-        mode = i % 4
-        if mode == 0:
+        mode = i % 5
+        if mode == 4:
+            # a formula grader used for sibling answers of a list, standalone, and in a second list: names introduced
+            # for one call (sibling_N, numbered instances) are not there for the next
+            def build():
+                fsub = M.FormulaGrader(variables=['x'], numbered_vars=['a'])
+                return {'fsub': fsub, 'L': M.ListGrader(answers=['x+1', 'sibling_1^2'], subgraders=fsub, ordered=True),
+                        'L3': M.ListGrader(answers=['2*x', 'x', 'sibling_2+sibling_1'], subgraders=fsub, ordered=True)}
+            calls = {'fsub': [('x+1', 'sibling_1'), ('x+1', 'x+1+0*sibling_1'), ('x+a_{1}', 'a_{1}+x'), ('x', 'x+0*sibling_2'), ('x^2', 'x*x')],
+                     'L': [(None, ['x+1', '(x+1)^2']), (None, ['x+2', '(x+2)^2']), (None, ['x+1', 'sibling_1^2']), (None, ['a_{4}', 'a_{4}^2'])],
+                     'L3': [(None, ['2*x', 'x', '3*x']), (None, ['x', 'x', '2*x']), (None, ['2*x', 'x+0*sibling_1', '3*x'])]}
+        elif mode == 0:
             # one StringGrader instance shared by two lists, a SingleListGrader and used standalone
             def build():
                 sub = M.StringGrader()
@@ -399,7 +419,7 @@ def run_shared(ctx):
             seq.append((name, e, s))
             dbg = bool(getattr(objs[name], 'config', {}).get('debug')) or mode == 1
             if norm(out, dbg) != norm(ref, dbg):
-                key = ['shared_subgrader', 'debug_subgrader', 'negative_powers', 'shared_parser'][mode]
+                key = ['shared_subgrader', 'debug_subgrader', 'negative_powers', 'shared_parser', 'per_call_variables'][mode]
                 ctx.violation('C11:shared:%s:%s' % (key, name), 'step %d (%s, expect %r, input %r) gave %r; on freshly built graders it gives %r'
                               % (pos, name, e, s, norm(out, dbg), norm(ref, dbg)), {'history': seq[-10:], 'mode': key})
                 break
